@@ -109,11 +109,26 @@ pub fn check(input: &FstInput, rec: &mut Rec) -> CheckResult {
     let em = emitted(&d);
     vensure!(em <= m.trie_nodes, "more-than-trie", "{} nodes emitted but the prefix trie of the keys has only {}; keys {}", em, m.trie_nodes, crate::oracle::keys_show(&input.pairs));
     let is_set = input.pairs.iter().all(|p| p.1 == 0);
-    if built.evictions == 0 {
+    // A premise that does not rely on what the cache reports about itself: when the number of
+    // distinct nodes does not exceed the cells of a single row, no row can ever have had to
+    // evict, whatever the hash function does.
+    let cols = input.geom.map(|g| g.1).unwrap_or(2);
+    let distinct_sigs = {
+        let mut sigs: std::collections::HashSet<(bool, u64, Vec<(u8, u64, usize)>)> = std::collections::HashSet::new();
+        for n in d.nodes.values() {
+            sigs.insert((n.is_final, n.final_output, n.trans.clone()));
+        }
+        sigs.len()
+    };
+    let cannot_overflow = input.geom.map(|g| g.0 >= 1).unwrap_or(true) && distinct_sigs <= cols;
+    if cannot_overflow && built.evictions > 0 && !rec.muted {
+        rec.class("cache_reported_evictions_it_did_not_have_to_make");
+    }
+    if built.evictions == 0 || cannot_overflow {
         if is_set {
-            vensure!(em == m.states.len(), "not-minimal", "no cache eviction occurred, yet {} nodes were emitted while the minimal DFA of the keys has {} states; geometry {:?}; keys {}", em, m.states.len(), input.geom, crate::oracle::keys_show(&input.pairs));
+            vensure!(em == m.states.len(), "not-minimal", "the cache did not have to evict, yet {} nodes were emitted while the minimal DFA of the keys has {} states; geometry {:?}; keys {}", em, m.states.len(), input.geom, crate::oracle::keys_show(&input.pairs));
             if let Err(e) = isomorphic(&d, &m) {
-                vfail!("not-minimal", "no cache eviction occurred, yet the emitted automaton is not the minimal DFA: {}; keys {}", e, crate::oracle::keys_show(&input.pairs));
+                vfail!("not-minimal", "the cache did not have to evict, yet the emitted automaton is not the minimal DFA: {}; keys {}", e, crate::oracle::keys_show(&input.pairs));
             }
         }
         // maps (and sets): no two emitted nodes with the same signature
@@ -121,7 +136,7 @@ pub fn check(input: &FstInput, rec: &mut Rec) -> CheckResult {
         for n in d.nodes.values() {
             let sig = (n.is_final, n.final_output, n.trans.clone());
             if let Some(prev) = seen.insert(sig, n.addr) {
-                vfail!("duplicate-node", "no cache eviction occurred, yet nodes @{} and @{} are identical (final={}, final_output={}, {} transitions); geometry {:?}; keys {}", prev, n.addr, n.is_final, n.final_output, n.trans.len(), input.geom, crate::oracle::keys_show(&input.pairs));
+                vfail!("duplicate-node", "the cache did not have to evict, yet nodes @{} and @{} are identical (final={}, final_output={}, {} transitions); geometry {:?}; keys {}", prev, n.addr, n.is_final, n.final_output, n.trans.len(), input.geom, crate::oracle::keys_show(&input.pairs));
             }
             vensure!(!(n.is_final && n.final_output == 0 && n.trans.is_empty()), "duplicate-node", "node @{} duplicates the shared empty-final sentinel", n.addr);
         }
@@ -265,6 +280,24 @@ pub fn run(e: &Engine) {
         check(c, rec)
     });
     e.require_class("file_over_1MiB_few_distinct_nodes", 1);
+    // rows wider than the number of distinct nodes: "did not have to evict" holds by counting,
+    // without asking the cache
+    e.run_prop(
+        "rows-wider-than-the-node-count",
+        e.tier.pick(20_000, 400_000),
+        || {
+            (gen::small_pairs(24, 40), any::<bool>(), prop_oneof![Just((1usize, 400usize)), Just((2, 400)), Just((3, 300)), Just((7, 256)), Just((1, 64)), Just((2, 48))], gen::front_strategy()).prop_map(|(pairs, set, geom, front)| {
+                let pairs: gen::Pairs = if set || front.is_set() { pairs.into_iter().map(|p| (p.0, 0)).collect() } else { pairs };
+                FstInput::new(front, Some(geom), pairs)
+            })
+        },
+        |c| c.to_json(),
+        |c, rec| {
+            check(c, rec)?;
+            rec.class("row_wider_than_node_count_case");
+            Ok(())
+        },
+    );
     e.run_prop(
         "long-shared-suffixes",
         e.tier.pick(3_000, 100_000),
